@@ -503,12 +503,13 @@ func (s *Lexer) getNextToken() (*Token, error) {
 			current_state = SSTRING_DOUBLE
 		} else if current_state == SSTRING_D_ESCAPE {
 			if ch == 'x' {
-				next_ch := s.read()
-				next_next_ch := s.read()
-				if IsHex(next_ch) && IsHex(next_next_ch) {
+				// look ahead without consuming: the reader can only take back a single rune
+				peeked, _ := s.r.Peek(2)
+				if len(peeked) == 2 && IsHex(rune(peeked[0])) && IsHex(rune(peeked[1])) {
+					next_ch := s.read()
+					next_next_ch := s.read()
 					buf.WriteRune(HexToAscii(next_ch, next_next_ch))
 				} else {
-					s.unread(2)
 					buf.WriteRune('x')
 				}
 			} else {
@@ -519,12 +520,13 @@ func (s *Lexer) getNextToken() (*Token, error) {
 			current_state = SSTRING_SINGLE
 		} else if current_state == SSTRING_S_ESCAPE {
 			if ch == 'x' {
-				next_ch := s.read()
-				next_next_ch := s.read()
-				if IsHex(next_ch) && IsHex(next_next_ch) {
+				// look ahead without consuming: the reader can only take back a single rune
+				peeked, _ := s.r.Peek(2)
+				if len(peeked) == 2 && IsHex(rune(peeked[0])) && IsHex(rune(peeked[1])) {
+					next_ch := s.read()
+					next_next_ch := s.read()
 					buf.WriteRune(HexToAscii(next_ch, next_next_ch))
 				} else {
-					s.unread(2)
 					buf.WriteRune('x')
 				}
 			} else {
